@@ -1283,8 +1283,8 @@ theorem findFrom_eq (pat bs : Bytes) (start : Nat) (h : start ≤ bs.length) :
 /-- bytes that begin with `35=<type>SOH` name that type -/
 theorem getMsgType_first (ty rest : Bytes) (h1 : 1 ∉ ty) (ha : ty.all (· < 128) = true) :
     getMsgType ([51, 53, 61] ++ ty ++ 1 :: rest) = .ok ty := by
-  have e0 : findSub [51, 53, 61] ([51, 53, 61] ++ ty ++ 1 :: rest) = some 0 := by
-    simp [findSub, List.isPrefixOf]
+  have e0 : List.isPrefixOf [51, 53, 61] ([51, 53, 61] ++ ty ++ 1 :: rest) = true := by
+    simp [List.isPrefixOf]
   have e1 : findFrom [1] ([51, 53, 61] ++ ty ++ 1 :: rest) 2 = some (ty.length + 3) := by
     rw [findFrom_eq _ _ _ (by simp)]
     have : ([51, 53, 61] ++ ty ++ 1 :: rest).drop 2 = (61 :: ty) ++ 1 :: rest := by simp
@@ -1294,8 +1294,8 @@ theorem getMsgType_first (ty rest : Bytes) (h1 : 1 ∉ ty) (ha : ty.all (· < 12
       · exact h1 hm)]
     simp
   unfold getMsgType
-  simp only [e0, e1]
-  have : (List.take (ty.length + 3) ([51, 53, 61] ++ ty ++ 1 :: rest)).drop (0 + 2 + 1) = ty := by
+  simp only [e0, if_true, e1]
+  have : (List.take (ty.length + 3) ([51, 53, 61] ++ ty ++ 1 :: rest)).drop (2 + 1) = ty := by
     have e : [51, 53, 61] ++ ty ++ 1 :: rest = ([51, 53, 61] ++ ty) ++ 1 :: rest := by simp
     rw [e, List.take_left' (by simp)]
     simp
